@@ -1,23 +1,81 @@
-(* C29 — proofs. *)
-From Coq Require Import List Arith NArith Bool Lia.
+(* C29 — proofs, part 4: witnesses.  (The proofs proper are in ProofsSel.v, ProofsPorts.v, ProofsMain.v.)
+   - the hypotheses of the main theorem are satisfiable by non-trivial policies (examples)
+   - each hypothesis that is not mere API validation is NECESSARY: refutations by computation, replayed on the
+     real code by the driver's scripted cases *)
+From Coq Require Import String.
+From Coq Require Import List Arith NArith Bool.
 From Verif.Common Require Import Labels Packet.
-From Verif.C29 Require Import Model Spec.
+From Verif.C29 Require Export Model Spec ProofsSel ProofsPorts ProofsMain.
 Import ListNotations.
 Open Scope N_scope.
 
-Lemma mem_insert_dd : forall x y l, mem_bytes x (insert_dd y l) = bytes_eqb x y || mem_bytes x l.
-Proof.
-  intros x y l. induction l as [|z l IH]; simpl.
-  - reflexivity.
-  - destruct (bytes_eqb y z) eqn:E.
-    + apply bytes_eqb_eq in E. subst. simpl. destruct (bytes_eqb x z); reflexivity.
-    + destruct (bytes_ltb z y); simpl.
-      * rewrite IH. destruct (bytes_eqb x y), (bytes_eqb x z); reflexivity.
-      * reflexivity.
-Qed.
+Definition mkpod ns labels ports : pod := {| pod_ns := ns; pod_sa := []; pod_labels := labels; pod_ports := ports |}.
+Definition pod_party (a : N) (p : pod) : party := {| pa_ver := V4; pa_ip := a; pa_pod := Some p |}.
+Definition ext_party (a : N) : party := {| pa_ver := V4; pa_ip := a; pa_pod := None |}.
+Definition no_sel : lsel := {| ls_match := []; ls_exprs := [] |}.
 
-Lemma mem_sort_dd : forall x vs, mem_bytes x (sort_dd vs) = mem_bytes x vs.
-Proof.
-  intros x vs. induction vs as [|v vs IH]; simpl; auto.
-  rewrite mem_insert_dd, IH. reflexivity.
-Qed.
+(* ------------------------------------------------------------------ a non-trivial well-formed example *)
+Definition ex_np : netpol :=
+  {| np_ns := b "prod";
+     np_sel := {| ls_match := [(b "app", b "db")]; ls_exprs := [] |};
+     np_ingress :=
+       [{| nr_peers := [{| pe_pod := Some {| ls_match := []; ls_exprs := [{| rq_key := b "tier"; rq_op := OpIn; rq_vals := [b "fe"; b "be"] |}] |};
+                           pe_ns := Some {| ls_match := [(b "team", b "a")]; ls_exprs := [] |}; pe_ip := None |};
+                        {| pe_pod := None; pe_ns := None;
+                           pe_ip := Some {| ib_cidr := {| cidr_ver := V4; cidr_addr := 167772160; cidr_len := 8 |};
+                                            ib_except := [{| cidr_ver := V4; cidr_addr := 167772416; cidr_len := 24 |}] |} |}];
+           nr_ports := [{| pp_proto := None; pp_port := KNum 80; pp_end := Some 82 |};
+                        {| pp_proto := None; pp_port := KNum 83; pp_end := None |};
+                        {| pp_proto := Some KUDP; pp_port := KName (b "dns"); pp_end := None |}] |}];
+     np_egress := [];
+     np_types := [TIngress] |}.
+Definition ex_cl : cluster := [(b "prod", [(b "team", b "b")]); (b "dev", [(b "team", b "a")])].
+Definition ex_db := mkpod (b "prod") [(b "app", b "db")] [(b "dns", KUDP, 53)].
+Definition ex_fe := mkpod (b "dev") [(b "tier", b "fe")] [].
+Definition ex_conn (src : party) proto port : conn :=
+  {| c_src := src; c_dst := pod_party 167837953 ex_db; c_proto := proto; c_dport := port |}.
+
+Example ex_np_ok : np_ok false ex_np = true. Proof. vm_compute. reflexivity. Qed.
+(* allowed: selected pod from a matching namespace, port inside the merged range 80-83 *)
+Example ex_allowed : k8s_allows [ex_np] ex_cl (ex_conn (pod_party 167838000 ex_fe) 6 83) = true
+  /\ cal_allows [conv_np ex_np] (cparty_of ex_cl (pod_party 167838000 ex_fe)) (cparty_of ex_cl (pod_party 167837953 ex_db)) 6 83 = true.
+Proof. vm_compute. auto. Qed.
+(* denied: address inside the ipBlock's except *)
+Example ex_denied_except : k8s_allows [ex_np] ex_cl (ex_conn (ext_party 167772421) 6 80) = false
+  /\ cal_allows [conv_np ex_np] (cparty_of ex_cl (ext_party 167772421)) (cparty_of ex_cl (pod_party 167837953 ex_db)) 6 80 = false.
+Proof. vm_compute. auto. Qed.
+(* allowed: named port dns/UDP of the destination pod, from the ipBlock *)
+Example ex_allowed_named : k8s_allows [ex_np] ex_cl (ex_conn (ext_party 167837700) 17 53) = true
+  /\ cal_allows [conv_np ex_np] (cparty_of ex_cl (ext_party 167837700)) (cparty_of ex_cl (pod_party 167837953 ex_db)) 17 53 = true.
+Proof. vm_compute. auto. Qed.
+Example ex_ports_merged :
+  map cr_dst_ports (cp_in (conv_np ex_np)) = [[CRange 80 83]; [CRange 80 83]; [CNamed (b "dns")]; [CNamed (b "dns")]].
+Proof. vm_compute. reflexivity. Qed.
+
+(* ------------------------------------------------------------------ refutation 1: policyTypes absent + egress rules (pinned tree) *)
+Definition w1_np : netpol :=
+  {| np_ns := b "default"; np_sel := no_sel; np_ingress := [];
+     np_egress := [{| nr_peers := []; nr_ports := [{| pp_proto := None; pp_port := KNum 80; pp_end := None |}] |}];
+     np_types := [] |}.
+Definition w1_pod := mkpod (b "default") [] [].
+Definition w1_conn : conn := {| c_src := pod_party 167772417 w1_pod; c_dst := ext_party 134744072; c_proto := 6; c_dport := 443 |}.
+
+Lemma policytypes_absent_refuted :
+  exists np cl c,
+    np_ok true np = true /\                       (* well-formed in every other respect *)
+    k8s_allows [np] cl c = false /\
+    cal_allows [conv_np_v false np] (cparty_of cl (c_src c)) (cparty_of cl (c_dst c)) (c_proto c) (c_dport c) = true.
+Proof. exists w1_np, [], w1_conn. vm_compute. auto. Qed.
+
+(* ------------------------------------------------------------------ refutation 2: Calico-reserved label prefix on a pod *)
+Definition w2_np : netpol :=
+  {| np_ns := b "default"; np_sel := {| ls_match := [(b "pcns.tier", b "db")]; ls_exprs := [] |};
+     np_ingress := []; np_egress := []; np_types := [TIngress] |}.
+Definition w2_pod := mkpod (b "default") [(b "pcns.tier", b "db")] [].
+Definition w2_conn : conn := {| c_src := ext_party 134744072; c_dst := pod_party 167772417 w2_pod; c_proto := 6; c_dport := 80 |}.
+
+Lemma reserved_label_refuted :
+  exists np cl c,
+    k8s_allows [np] cl c = false /\
+    forall infer, cal_allows [conv_np_v infer np] (cparty_of cl (c_src c)) (cparty_of cl (c_dst c)) (c_proto c) (c_dport c) = true.
+Proof. exists w2_np, [], w2_conn. split; [vm_compute; reflexivity|]. intros [|]; vm_compute; reflexivity. Qed.
